@@ -684,6 +684,55 @@ def check_respelled_chart(tname):
     return True
 
 
+def check_chart_type_after_formatting(tname):
+    """Formatting one series (marker none / other marker, smooth off, a line width, a fill) does not turn the chart
+    into another chart type."""
+    import pptx
+    from pptx.enum.chart import XL_CHART_TYPE, XL_MARKER_STYLE
+    from pptx.util import Emu, Pt
+
+    t = XL_CHART_TYPE[tname]
+    for variant in ("marker-none", "marker-square", "smooth-off", "line-and-fill"):
+        prs = pptx.Presentation()
+        slide = prs.slides.add_slide(prs.slide_layouts[6])
+        with core.sut("C20:add_chart"):
+            ch = slide.shapes.add_chart(t, Emu(0), Emu(0), Emu(4000000), Emu(3000000),
+                                        _chart_data(tname, [3, 3, "str"])).chart
+        with core.sut("C20:format-series:" + variant):
+            sers = list(ch.plots[0].series)
+            if not sers:
+                return
+            s = sers[len(sers) - 1]
+            if variant.startswith("marker"):
+                if not hasattr(s, "marker"):
+                    continue
+                s.marker.style = XL_MARKER_STYLE.NONE if variant == "marker-none" else XL_MARKER_STYLE.SQUARE
+            elif variant == "smooth-off":
+                if not hasattr(s, "smooth"):
+                    continue
+                s.smooth = False
+            else:
+                s.format.line.width = Pt(1.5)
+                s.format.fill.solid()
+        with core.sut("C20:chart_type-after-formatting"):
+            got = type(ch)(ch._chartSpace, ch.part).chart_type
+        exp = {t}
+        if variant.startswith("marker"):
+            # markers are what tells LINE_MARKERS from LINE, XY_SCATTER_LINES from ..._NO_MARKERS: showing or hiding them
+            # may move the chart between those siblings, never to a type that differs in anything else (lines, smoothing,
+            # stacking)
+            def stem(n):
+                return n.replace("_NO_MARKERS", "").replace("_MARKERS", "")
+            exp |= {x for x in XL_CHART_TYPE if stem(x.name) == stem(tname)}
+        if variant == "smooth-off":
+            # smoothing is what tells the "smooth" XY type from its straight-line sibling: switching it off on a
+            # series may legitimately change the reported sub-type
+            exp |= {x for x in XL_CHART_TYPE if x.name.startswith("XY_SCATTER")} if tname.startswith("XY_") else set()
+        if got not in exp:
+            raise Violation("C20:chart-type-after-formatting:%s" % variant,
+                            "%s reads chart_type %r after %s on its last series" % (tname, got, variant))
+
+
 def check_respelled_shape(mname):
     """p:cNvSpPr/@txBox="0" (the schema default written out, as other producers do) is still an auto shape."""
     import pptx
@@ -1063,6 +1112,7 @@ def run_job(job, seed, tier, rec, known):
         done = []
         f = _tag(run_plain(lambda n: done.append(n) if check_respelled_chart(n) else None, names, rec=rec, known=known),
                  "respelled-chart")
+        f += _tag(run_plain(check_chart_type_after_formatting, names, rec=rec, known=known), "chart-formatting")
         snames = [m.name for m in MSO_SHAPE if m.xml_value]
         f += _tag(run_plain(check_respelled_shape, snames, rec=rec, known=known), "respelled-shape")
         rec.note_enum(len(names) + len(snames), len(done) + len(snames), sample=["respelled-chart", names[0]])
@@ -1201,6 +1251,8 @@ def replay(case):
         return collect(check_foreign_avlst, c)
     if kind == "respelled-chart":
         return collect(check_respelled_chart, c)
+    if kind == "chart-formatting":
+        return collect(check_chart_type_after_formatting, c)
     if kind == "respelled-shape":
         return collect(check_respelled_shape, c)
     if kind == "api":
